@@ -33,7 +33,10 @@ def run(ctx):
              "(small on-memory LRU in front of the directory cache; oracle-only) / FUSE passthrough: node.Open merges the "
              "file into one backing file (merge buffers of 2-4 chunks, 1-4 workers, direct-mode directory cache, chunks "
              "pre-cached by partial reads or prefetch-stores, merged file dropped and rebuilt after evictions) and the "
-             "WHOLE content of the passthrough fd is compared with the tar (8 hand-written scenarios every run + random); every read, lookup, listing, attribute block and xattr is compared with the tar "
+             "WHOLE content of the passthrough fd is compared with the tar (8 hand-written scenarios every run + random); "
+             "12 (memory store) + 9 (db store) scripted geometries (chunk size, merge buffer, file size) where the chunk "
+             "size does NOT divide the merge buffer, incl. short files with exactly one straddling chunk, min-chunk-size "
+             "variants, and a random bias towards non-dividing pairs; every read, lookup, listing, attribute block and xattr is compared with the tar "
              "itself (oracle) and with the Lean model (chunk lookup, read arithmetic incl. which chunks get stored, "
              "tarView + entryToAttr for metadata); both metadata stores (db store from the cmd module); a history is "
              "distinct by (build options, stack configuration, #entries, #chunks, op shape). Hand-written scenarios "
